@@ -1217,7 +1217,6 @@ async fn write_task<B: DownlinkBackpressure>(
                 let mut write_fut = pin!(write_fut);
                 'inner: loop {
                     let result = if registered.is_empty() {
-                        task_state.remove(WriteTaskState::NEEDS_SYNC);
                         match select(&mut write_fut, reg_requests.next()).await {
                             Either::Left((write_result, _)) => {
                                 SuspendedResult::SuspendedCompleted(write_result)
